@@ -79,3 +79,40 @@ Proof.
   intros self region s s' r W PO RL H.
   eapply (parents_ok_by_region (move_blocks self region) region); eauto. apply move_blocks_par.
 Qed.
+
+(* ------------------------------------------------------------------ drop_all_references / erase *)
+
+Lemma drop_all_par : forall PB PR PO fuel,
+  (forall o, preserves (par_rel PB PR PO) (op_drop_all_references fuel o)) /\
+  (forall r, preserves (par_rel PB PR PO) (region_drop_all_references fuel r)) /\
+  (forall c, preserves (par_rel PB PR PO) (blocks_drop_from fuel c)) /\
+  (forall b, preserves (par_rel PB PR PO) (block_drop_all_references fuel b)) /\
+  (forall c, preserves (par_rel PB PR PO) (ops_drop_from fuel c)).
+Proof.
+  intros PB PR PO fuel. induction fuel as [|f (IH1 & IH2 & IH3 & IH4 & IH5)].
+  - split; [|split; [|split; [|split]]]; intro; simpl; apply (pres_raise _ (fr_par PB PR PO)).
+  - split; [|split; [|split; [|split]]]; [intro o|intro r|intro c|intro b|intro c]; simpl.
+    + pres (fr_par PB PR PO); try apply IH2.
+    + pres (fr_par PB PR PO); try apply IH3.
+    + destruct c as [b|]; [|apply (pres_ret _ (fr_par PB PR PO))].
+      apply (pres_bind _ (fr_par PB PR PO)); [apply (pres_getB _ (fr_par PB PR PO))|intro br].
+      apply (pres_bind _ (fr_par PB PR PO)); [apply IH4|intros _; apply IH3].
+    + pres (fr_par PB PR PO); try apply IH5.
+    + destruct c as [o|]; [|apply (pres_ret _ (fr_par PB PR PO))].
+      apply (pres_bind _ (fr_par PB PR PO)); [apply (pres_getO _ (fr_par PB PR PO))|intro orec].
+      apply (pres_bind _ (fr_par PB PR PO)); [apply IH1|intros _; apply IH5].
+Qed.
+
+Lemma op_erase_par : forall PB PR PO o safe dr, preserves (par_rel PB PR PO) (op_erase o safe dr).
+Proof.
+  intros. unfold op_erase. pres (fr_par PB PR PO); try apply (proj1 (drop_all_par PB PR PO _)).
+Qed.
+Lemma erase_op_par : forall PB PR PO b o safe, preserves (par_rel PB PR PO) (erase_op b o safe).
+Proof.
+  intros. unfold erase_op. apply (pres_bind _ (fr_par PB PR PO)); [apply detach_op_par|intro]. apply op_erase_par.
+Qed.
+Lemma rw_erase_op_par : forall PB PR PO o safe, preserves (par_rel PB PR PO) (rw_erase_op o safe).
+Proof.
+  intros. unfold rw_erase_op. apply (pres_bind _ (fr_par PB PR PO)); [apply (pres_getO _ (fr_par PB PR PO))|intro orec].
+  destruct (o_parent orec); [apply erase_op_par|apply op_erase_par].
+Qed.
